@@ -143,3 +143,13 @@ Proof.
   assert (Q : (1 / (1 + (e + 0)) * 2 + (e / (1 + (e + 0)) * 4 + 0)) * (1 + e) = 2 + 4 * e) by (field; lra).
   rewrite <- E in Q. lra.
 Qed.
+
+(** the hypothesis of [ind_step_mixture_sound] is met: a two-individual, two-cluster step runs *)
+Example ex_ind_step_mixture_runs :
+  exists y tp' acc,
+    ind_step (fun _ => [0; 0]) (regul_mix (fun _ => [[0; 0]; [1; 2]]) (fun _ => [[1; 2]; [3; 4]])) (/ 2) [1; 2]
+             (Nd [Sc 0; Sc 0]) (Build_tape [1; 2; 3] [/ 2; / 3; / 4]) = Some (y, tp', acc).
+Proof.
+  unfold ind_step, regul_mix. simpl.
+  do 3 eexists. reflexivity.
+Qed.
